@@ -5,6 +5,7 @@ mod strip;
 mod dom;
 mod field;
 mod pipeline;
+mod curves;
 
 fn main() {
     util::install_panic_hook();
@@ -24,6 +25,7 @@ fn main() {
         "field" => field::run(a(2), a(3)),
         "field-real" => field::run_real(a(2), a(3)),
         "pipeline" => pipeline::run(a(2), a(3)),
+        "curves" => curves::run(a(2), a(3)),
         _ => {
             eprintln!("unknown command {cmd}");
             std::process::exit(2);
